@@ -114,6 +114,9 @@ class RCA(MahalanobisMixin, TransformerMixin):
       total_cov = np.cov(X[chunk_mask], rowvar=0)
       tmp = np.linalg.lstsq(total_cov, inner_cov, rcond=None)[0]
       vals, vecs = np.linalg.eig(tmp)
+      # tmp is similar to a symmetric positive semi-definite matrix, so its
+      # spectrum is real; recent numpy returns it with a complex dtype
+      vals, vecs = vals.real, vecs.real
       inds = np.argsort(vals)[:dim]
       A = vecs[:, inds]
       inner_cov = np.atleast_2d(A.T.dot(inner_cov).dot(A))
